@@ -77,7 +77,10 @@ class ConditionalLossMoment(LossMoment):
         """Calculate the degree to which constraints are currently violated by the predictor."""
         # rows are paired by position: a pandas result is not to be aligned on its index labels
         self.tags[_PREDICTION] = np.squeeze(np.asarray(predictor(self.X)))
-        self.tags[_LOSS] = self.reduction_loss.eval(self.tags[_LABEL], self.tags[_PREDICTION])
+        # in float: labels and predictions in an unsigned (or boolean) dtype must not wrap around
+        self.tags[_LOSS] = self.reduction_loss.eval(
+            self.tags[_LABEL].astype(np.float64), self.tags[_PREDICTION].astype(np.float64)
+        )
         expect_attr = self.tags.groupby(_GROUP_ID).mean()
         self._gamma_descr = str(expect_attr[[_LOSS]])
         return expect_attr[_LOSS]
